@@ -334,6 +334,8 @@ func runC07(c *Ctx) {
 	// write, i.e. without a notify - the waiter's armed expiry timer and "the record it checked" are then stale
 	c.inmemNoSharing(im, "C07.W12")
 	c.inmemOneKeySpelling(im, "C07.W13")
+	c.waitCtxSentinelOnlyWhenDone("C07.W14", im.all, im.storage["WaitForVersionChange"])
+	c.waitCtxSentinelOnlyWhenDone("C07.W14", rd.all, rd.storage["WaitForVersionChange"])
 	// a change the waiter is to notice is a change of the version: every write stores a fresh one
 	c.inmemFreshVersions(im, "C07.V1")
 	c.redisFreshVersions(rd, "C07.V1")
